@@ -349,6 +349,62 @@ class Sym:
         self._header_syms[l] = self.loop_sym(l, "|".join(sorted(set(inits))))
         return self._header_syms[l]
 
+    def bit_signature(self, t):
+        """`(v >> 23) == 1`, `v & (1 << 23) != 0`, ... over ONE opaque integer v of known small width: canonical
+        `bit{23}(v)=1` form (agvlib.bitsem); None if the comparison is not of that kind"""
+        from . import bitsem
+        from .terms import walk as _walk
+        if not any(x[0] == "bin" and x[1] in ("BitAnd", "BitOr", "BitXor", "Shl", "Shr") for x in _walk(t)):
+            return None
+        # the opaque variable: the unique maximal subterm that is not a bit operation / constant
+        leaves = []
+
+        def fold(x):
+            """constant subterms (`24 - 1`) as literals"""
+            if not isinstance(x, tuple) or not x:
+                return x
+            if x[0] in ("bin", "cast"):
+                px = self.poly(x)
+                if px is not None and px.is_const() and px.const_value() == int(px.const_value()) and px.const_value() >= 0:
+                    return ("const", int(px.const_value()), "u64")
+            if x[0] == "bin" and len(x) == 4:
+                return (x[0], x[1], fold(x[2]), fold(x[3]))
+            if x[0] == "cast":
+                return (x[0], x[1], fold(x[2])) + tuple(x[3:])
+            return x
+        t = fold(t)
+
+        def collect(x):
+            x = strip(x)
+            if x[0] == "const":
+                return
+            if x[0] == "bin" and len(x) == 4 and x[1] in ("BitAnd", "BitOr", "BitXor", "Shl", "Shr", "Eq", "Ne", "Lt", "Le", "Gt", "Ge"):
+                collect(x[2])
+                collect(x[3])
+                return
+            if x[0] == "cast":
+                collect(x[2])
+                return
+            leaves.append(x)
+        collect(t)
+        if not leaves or any(l != leaves[0] for l in leaves):
+            return None
+        v = leaves[0]
+        pv = self.poly(v)
+        if pv is None or len(pv.syms()) != 1 or pv != Poly.sym(pv.syms()[0]):
+            return None
+        bx = self.sym_box.get(pv.syms()[0], (None, None))
+        if bx[0] is None or bx[0] < 0 or bx[1] is None or bx[1] >= (1 << 32):
+            return None
+        width = max(1, int(bx[1]).bit_length())
+
+        def is_var(x):
+            return strip(x) == v
+        sg = bitsem.signature(t, is_var, width)
+        if sg is None or not sg.startswith(("b{", "true", "false")):
+            return None
+        return "bits(%s):%s" % (pv.syms()[0], sg)
+
     def uniq(self, local, desc):
         """In `unique_locals` mode (panic-obligation engine) two different locals with the same canonical description
         get different names, so that a fact about one is never applied to the other; the table-comparison packs keep
@@ -519,6 +575,15 @@ class Sym:
             except Exception:
                 return None
             return None
+        if k == "try":
+            # audited library summary (winnow): `empty.value(v).parse_next(i)?` is v — `empty` always succeeds without
+            # consuming input and `value` replaces its output by a clone of v (how the `seq!` parsers of
+            # detector::chronobox fill fields computed from an earlier token)
+            c0 = strip(t[1])
+            if c0[0] == "call" and c0[1] == "winnow::Parser::parse_next" and len(c0[2]) == 2:
+                pv = unmut(c0[2][0])
+                if pv[0] == "call" and pv[1] == "winnow::Parser::value" and len(pv[2]) == 2 and strip(pv[2][0]) == ("fn", "winnow::combinator::empty"):
+                    return self.poly(pv[2][1])
         # length of a region of the input
         if (k == "call" and short(t[1]) == "<impl [T]>::len") or k == "len":
             arg = t[2][0] if k == "call" else t[1]
@@ -592,6 +657,8 @@ class Sym:
                 a, b = self.poly(t[2]), self.poly(t[3])
                 if a is None or b is None:
                     return None
+                if op == "Shl" and b.is_const() and 0 <= b.const_value() <= 62:
+                    return a * Poly.const(1 << int(b.const_value()))      # same value wherever the result fits the type
                 nm = "%s(%s,%s)" % (op.lower(), a, b)
                 if nm not in self.sym_box:
                     # value ranges of bit operations with a constant operand (unsigned operands)
@@ -1054,7 +1121,16 @@ class Sym:
         if k == "un":
             return "%s(%s)" % (t[1].lower(), self.arg_name(t[2]))
         if k == "bin":
-            return "%s(%s,%s)" % (t[1], self.arg_name(t[2]), self.arg_name(t[3]))
+            op_, a_, b_ = t[1], self.arg_name(t[2]), self.arg_name(t[3])
+            if op_ in ("Eq", "Ne", "BitAnd", "BitOr", "BitXor", "Add", "Mul") and (strip(t[3])[0] == "const", b_) < (strip(t[2])[0] == "const", a_):
+                a_, b_ = b_, a_                       # commutative: one operand order
+            elif op_ in ("Gt", "Ge"):
+                op_, a_, b_ = {"Gt": "Lt", "Ge": "Le"}[op_], b_, a_
+            if op_ in ("Eq", "Ne", "Lt", "Le") and len(t) == 4:
+                sg = self.bit_signature(t)
+                if sg is not None:
+                    return sg
+            return "%s(%s,%s)" % (op_, a_, b_)
         if k == "cast":
             return "(%s as %s)" % (self.arg_name(t[2]), t[3])
         r = self.ev.region(t)
